@@ -365,3 +365,20 @@ Definition mon_C09_unit (x o : sx) : sx :=
     else v_ok
   end.
 
+
+(* ---- C06 end to end (route family): what the client decodes is the origin's content, whole ---- *)
+Definition mon_C06_e2e (x o : sx) : sx :=
+  let cl := sx_nth 0 o in
+  let kind := sx_str (sx_nth 0 cl) in
+  if negb (str_eqb kind (bytes "origin")) || negb (Z.eqb (sx_int (sx_nth 1 cl)) 200) then v_ok else
+  let script := sx_list (sx_nth 4 x) in
+  let content := match script with
+                 | hs :: _ => sx_str (sx_nth 2 (sx_nth 0 (sx_nth 1 hs)))
+                 | [] => []
+                 end in
+  let req := sx_nth 3 x in
+  let is_head := str_eqb (sx_str (sx_nth 0 req)) (bytes "HEAD") in
+  if sx_bool (sx_nth 4 cl) then verdict false "the response was cut short of its declared length"
+  else if negb is_head && negb (str_eqb (sx_str (sx_nth 3 cl)) content)
+  then verdict false "the content the client decodes is not the origin's content"
+  else v_ok.
